@@ -103,14 +103,18 @@ func Parse(b []byte) (c Content, ok bool) {
 type Config struct {
 	PageSize uint32
 	MaxPages uint64 // 0 = unbounded
+	MaxSlack uint64 // bytes added to MaxPages*PageSize (< PageSize): a limit that is not a multiple of the page size
 	InitMeta uint32
 	Prealloc bool
 	Sync     txfile.SyncMode
 }
 
 func (c Config) Options() txfile.Options {
+	if c.MaxPages == 0 {
+		c.MaxSlack = 0 // unbounded
+	}
 	return txfile.Options{
-		MaxSize:      c.MaxPages * uint64(c.PageSize),
+		MaxSize:      c.MaxPages*uint64(c.PageSize) + c.MaxSlack,
 		PageSize:     c.PageSize,
 		InitMetaArea: c.InitMeta,
 		Prealloc:     c.Prealloc,
